@@ -16,3 +16,18 @@ Definition merge_calls : list (string * list string) :=
   [("Start", ["nStart"; "xBefore"; "xStart"]);
    ("X", ["xEnd"; "xAfter"; "nX"; "sBefore"; "sStart"]);
    ("End", ["sEnd"; "sAfter"; "nEnd"])].
+
+Definition merge_slots : list (string * string * string * string) :=
+  [("out.Decs.Before", "before", "n", "");
+   ("out.Decs.After", "after", "n", "");
+   ("xBefore", "before", "n.X", "");
+   ("xAfter", "after", "n.X", "");
+   ("sBefore", "before", "n.Sel", "");
+   ("sAfter", "after", "n.Sel", "");
+   ("nStart", "decorations", "n", "Start");
+   ("nX", "decorations", "n", "X");
+   ("nEnd", "decorations", "n", "End");
+   ("xStart", "decorations", "n.X", "Start");
+   ("xEnd", "decorations", "n.X", "End");
+   ("sStart", "decorations", "n.Sel", "Start");
+   ("sEnd", "decorations", "n.Sel", "End")].
